@@ -26,7 +26,7 @@ import numpy as np
 import common
 from pydrobert.speech import post
 
-MODES = ["edge", "constant", "reflect", "symmetric", "wrap"]
+MODES = ["edge", "constant", "reflect", "symmetric", "wrap", "linear_ramp", "mean"]
 
 
 def shapes(tier):
@@ -225,7 +225,7 @@ def run(tier, seed):
     run.traces += len(cases)
     run.sample({"case": cases[0], "spec_row": {"shape": rows[0]["shape"], "map_head": rows[0]["map"][:4]}})
     run.sample({"case": cases[1]})
-    run.extra["rule"] = "cases drawn (seeded) from: shapes with 1-3 dims and extents 0..3 (+ a few longer), every axis/target_axis/time_axis incl. negative, num_deltas 0..2, context 1..2, 5 pad modes, num_vectors 1..4, 3 stack pad modes"
+    run.extra["rule"] = "cases drawn (seeded) from: shapes with 1-3 dims and extents 0..3 (+ a few longer), every axis/target_axis/time_axis incl. negative, num_deltas 0..2, context 1..2, 7 pad modes (incl. the width-dependent linear_ramp and mean), num_vectors 1..4, 3 stack pad modes"
     run.extra["cases"] = len(cases)
     return run.finish()
 
